@@ -416,7 +416,7 @@ for n, one_hot in ((1, False), (2, False), (2, True), (3, False), (3, True), (4,
         has_sel = not (n == 1 and not one_hot)
         nsel = (1 << n) if one_hot else (2 if n <= 2 else (4 if n <= 4 else 8))
         return MultiStreamHarness(nm, f, ["master"], [f"s{i}" for i in range(n)], DispatcherOracle(n, one_hot, has_sel), maxpkt=3,
-                                  ctrl=[("sel", range(nsel))] if has_sel else None, liveness=False)
+                                  ctrl=[("sel", range(nsel))] if has_sel else None, liveness=True)      # every selector value makes progress: a packet to no slave is swallowed
     reg(nm, "quick" if n < 3 or not one_hot else "thorough", mk_disp)
 
 
